@@ -26,6 +26,14 @@ from .decision import NOTHING, Evaluator, Hooks, Sym, vtext
 from .model import AnalysisError, u
 
 
+class ExternalDependence(AnalysisError):
+    """a transition of the extracted automaton depends on data outside the modelled lexical state, with different outcomes"""
+
+    def __init__(self, msg, key):
+        super().__init__(msg)
+        self.key = key
+
+
 class _StepHooks(Hooks):
     def __init__(self, stack, cat, char, directives_only=False, vc=None, selfname="self"):
         self.stack = list(stack)
@@ -37,6 +45,19 @@ class _StepHooks(Hooks):
         self.vc = list(vc or [])
         self.dircheck = False
         self.consumed_rest = False
+        self.fell = False
+        self._initial = (list(self.stack), self.cat, list(self.vc))
+
+    # every path of one step starts from the same model state and leaves its own outcome
+    def begin_path(self):
+        self.stack, self.cat, self.vc = list(self._initial[0]), self._initial[1], list(self._initial[2])
+        self.events, self.putback, self.dircheck, self.consumed_rest, self.fell = [], None, False, False, False
+
+    def end_path(self):
+        return (tuple(self.stack), self.cat, tuple(self.vc), tuple(self.events), self.putback, self.dircheck, self.fell)
+
+    def restore(self, snap):
+        self.stack, self.cat, self.vc, self.events, self.putback, self.dircheck, self.fell = list(snap[0]), snap[1], list(snap[2]), list(snap[3]), snap[4], snap[5], snap[6]
 
     # -- buffer abstraction
     def emit_nonspace(self, c):
@@ -84,7 +105,7 @@ class _StepHooks(Hooks):
                 return Sym(t)
             if t in ("obuf.parts", "self.outbuf.parts") and isinstance(expr.ctx, ast.Load):
                 # only emptiness is modelled
-                return [] if self.cat == "EMPTY" else ["?"]
+                return [] if self.cat == "EMPTY" else [Sym("<buffered text>")]
         if isinstance(expr, ast.Name) and expr.id == "char":
             return self.char
         if isinstance(expr, ast.Compare) and len(expr.ops) == 1 and self._is_stack(u(expr.left)) and isinstance(expr.ops[0], (ast.Eq, ast.NotEq)):
@@ -140,6 +161,8 @@ class _StepHooks(Hooks):
             return Sym(ftext)
         if recv == "self" and meth in getattr(self, "helpers", {}):
             return NOTHING  # inlined (see inline())
+        if ftext in ("bool", "len", "str", "ord", "chr", "isinstance", "int") or (recv and recv.split(".")[0] not in ("self", "obuf", "state", "inbuffer") and meth in ("isdigit", "isalpha", "isalnum", "isspace", "isidentifier", "startswith", "endswith", "lower", "upper")):
+            return NOTHING  # pure: left to the evaluator (an undecided result makes the transition depend on it)
         raise AnalysisError(f"cleaner: call not understood in the state machine: {ftext}({', '.join(vtext(a) for a in args)})")
 
     def inline(self, call, ftext, st):
@@ -208,9 +231,19 @@ class Extracted:
         params = {"inbuffer": Sym("inbuffer"), "lineiter": Sym("lineiter")}
         params.update(extra or {})
         paths = Evaluator(hooks, max_paths=64).paths(wrapper, params=params)
-        if len(paths) != 1 or paths[0].atoms:
-            raise AnalysisError(f"{self.cls.name}: transition depends on something the automaton model does not know: {[list(p.atoms) for p in paths][:2]}")
+        outcomes = {(p.env.get("__model__"), p.result[0]) for p in paths}
+        if len(outcomes) != 1:
+            # the step does different things depending on something that is neither the mode stack, the character nor
+            # the class of the buffered line: the scanner is no longer a function of the lexical state
+            atoms_ = sorted({k for p in paths for k in p.atoms})
+            a, b = sorted(outcomes, key=repr)[:2]
+            raise ExternalDependence(
+                f"{self.cls.name}: in mode {list(hooks._initial[0])} on {hooks.char!r} the step depends on {atoms_[:3]} - data outside the lexical state (mode stack, character, class of the buffered line): "
+                f"one way it leaves modes {list(a[0][0])} / emits {list(a[0][3])}, the other way {list(b[0][0])} / {list(b[0][3])}; the reference scanner's step is a function of (mode, character), so one of the two disagrees with it",
+                key=f"{self.cls.name}:transition-depends-on:{atoms_[0][:60] if atoms_ else '?'}",
+            )
         p = paths[0]
+        hooks.restore(p.env["__model__"])
         if p.result[0] == "raise":
             return "raise"
         if p.result[0] == "return":
